@@ -116,6 +116,17 @@ Store(c, o, serial, d) ==
   /\ maxOid' = IF o > maxOid THEN o ELSE maxOid      \* set_max_oid / the mapping storage's counter
   /\ UNCHANGED <<hist, lastTs, clock, issued, begun, ltid, packed, obs>>
 
+\* a store that the file-size quota refuses (FileStorage(quota=n)): the record was already put into the
+\* transaction buffer when the check fires; the caller must abort
+StoreQuota(c, o, serial, d) ==
+  /\ IsFile /\ Active(c) /\ Len(txn.staged) < MaxRecs /\ InOrder(o)
+  /\ serial \in SerialsOf(o)
+  /\ LET cur == CurTid(hist, o) IN cur = 0 \/ serial = cur          \* (the store itself would be accepted)
+  /\ txn' = Fail
+  /\ res' = Out("store", "FileStorageQuotaError")
+  /\ maxOid' = IF o > maxOid THEN o ELSE maxOid
+  /\ UNCHANGED <<hist, lastTs, clock, issued, begun, ltid, packed, obs>>
+
 \* checkCurrentSerialInTransaction: getTid(oid) must equal the serial the client read
 CheckCurrent(c, o, serial) ==
   /\ Active(c)
@@ -364,6 +375,7 @@ NextFault ==
   \/ \E c \in Client, t \in SerialRange : Undo(c, t)
   \/ \E c \in Client : Vote(c)
   \/ \E c \in Client : VoteFail(c)
+  \/ \E c \in Client, o \in Oids, s \in SerialRange, d \in Datums : StoreQuota(c, o, s, d)
   \/ \E c \in Client : Finish(c)
   \/ \E c \in Client : AbortFailed(c)
   \/ CloseReopenQ
